@@ -760,6 +760,28 @@ def _callee_of(mod: Module, cls: Optional[str], call: ast.Call, scope: Optional[
             if any(k in x for x in decos for k in ("cache", "property", "timeit")):
                 return None
             return d, (0 if "staticmethod" in decos else 1)
+    if isinstance(f, ast.Attribute) and isinstance(f.value, ast.Name) and f.value.id not in ("self", "cls") and f.value.id != cls:
+        # (c) OtherClass.method(..) of a class of this module (classmethod / staticmethod);  (d) obj.method(..) where `method` is defined exactly once in hta (a method of
+        # this module, not a name that library objects have too): the receiver is bound to the method's first parameter.  Private classes / private methods only.
+        from . import progdb as _pdb
+        other = mod.classes.get(f.value.id)
+        if other is not None:
+            d = mod.functions.get(f"{f.value.id}.{f.attr}")
+            if d is not None and (f.attr.startswith("_") or f.value.id.startswith("_")):
+                decos = [ast.unparse(x) for x in d.decorator_list]
+                if "staticmethod" in decos and len(decos) == 1:
+                    return d, 0
+                if "classmethod" in decos and len(decos) == 1:
+                    return d, 1, ast.Name(id=f.value.id, ctx=ast.Load())
+            return None
+        e = getattr(_pdb, "SIGS", {}).get(f.attr)
+        if e is not None and e[1] == "method" and f.attr not in _pdb._foreign_attrs():
+            owners = [q for q, cand in mod.functions.items() if q.count(".") == 1 and q.endswith("." + f.attr) and q.split(".")[0] in mod.classes]
+            if len(owners) == 1 and (f.attr.startswith("_") or owners[0].split(".")[0].startswith("_")):
+                d = mod.functions[owners[0]]
+                if not d.decorator_list and d.args.args:
+                    return d, 1, f.value
+        return None
     if isinstance(f, ast.Name):
         d = mod.functions.get(f.id) if f.id.startswith("_") else None
         if d is None:
@@ -812,9 +834,10 @@ def inline_helpers(mod: Module, func: ast.FunctionDef, depth: int = 2, only_priv
         res = _callee_of(mod, cls, call, qual)
         if res is None:
             return None
-        d, skip = res
+        d, skip = res[0], res[1]
+        recv = res[2] if len(res) > 2 else None
         is_closure = mod.qualname_of(d).count(".") >= (2 if cls is not None else 1)
-        if only_private and not d.name.startswith("_") and not is_closure:
+        if only_private and not d.name.startswith("_") and not is_closure and recv is None:
             return None
         if d is func or d.name == func.name or d.name in exclude:
             return None
@@ -827,6 +850,8 @@ def inline_helpers(mod: Module, func: ast.FunctionDef, depth: int = 2, only_priv
         params = [p.arg for p in a.args][skip:]
         defaults = dict(zip([p.arg for p in a.args][len(a.args) - len(a.defaults):], a.defaults))
         bound: Dict[str, ast.expr] = {}
+        if recv is not None and skip == 1:
+            bound[a.args[0].arg] = recv          # the receiver (an object or a class of this module) takes the place of self / cls
         for p_, v in zip(params, call.args):
             bound[p_] = v
         for k in call.keywords:
